@@ -57,6 +57,25 @@ def build_disp():
     open(stamp, "w").write("ok")
     return outb, {e: ents[e] for e in have}, have
 
+def shim_kit():
+    """re-assembled multibinary objects + stubs + archive without the original multibinary members (built with h_disp)"""
+    build_disp()
+    w = os.path.join(libdir(), "disp")
+    objs = [os.path.join(w, os.path.basename(f).replace(".asm", ".o")) for f in MB]
+    return w, objs
+
+def build_shimmed(name, src, extra=""):
+    """link a harness program against the library with the intercepted resolvers and the env-driven CPUID answers"""
+    w, objs = shim_kit()
+    outb = os.path.join(libdir(), name)
+    srcs = [os.path.join(HARNESS, src), os.path.join(HARNESS, "cpuid_env.c"), os.path.join(HARNESS, "vh.h")]
+    if os.path.exists(outb) and all(os.path.getmtime(outb) >= os.path.getmtime(x) for x in srcs):
+        return outb
+    sh("gcc -O1 -g -Wall -Wno-unused-function -D%s -I%s -I%s/include -I%s/igzip -o %s.tmp %s/%s %s/cpuid_env.c %s %s/cpuid_stubs.o -Wl,--whole-archive %s/isa-l-nomb.a -Wl,--no-whole-archive %s -lpthread" %
+       (GUARD, HARNESS, REPO, REPO, outb, HARNESS, src, HARNESS, " ".join(objs), w, w, extra))
+    os.rename(outb + ".tmp", outb)
+    return outb
+
 def configs(wd):
     """closed configurations from spec/gen/GenDispatch.tla; cached by the hash of the spec (does not depend on /repo)"""
     h = hashlib.sha256(open(os.path.join(SPEC, "Dispatch.tla"), "rb").read() + open(os.path.join(SPEC, "gen/GenDispatch.tla"), "rb").read()).hexdigest()[:16]
